@@ -10,10 +10,12 @@ import (
 	"strings"
 	"testing"
 	"testing/synctest"
+	"time"
 
 	"github.com/hashicorp/serf/cmd/serf/command/agent"
 	"github.com/hashicorp/serf/serf"
 
+	"verif/harness/cluster"
 	"verif/harness/evid"
 	"verif/harness/wire"
 )
@@ -162,6 +164,8 @@ type c30Result struct {
 	rejected         int
 	overlaps         int
 	predMismatch     int
+	withPeer         bool
+	timeoutEdits     int
 	reloads          int
 	restarts         int
 	err              string
@@ -204,11 +208,20 @@ func c30Case(t *testing.T, rng *rand.Rand, dir string) (res c30Result) {
 	synctest.Test(t, func(t *testing.T) {
 		var env *ipcEnv
 		var cl *ipcClient
+		var pup *cluster.Puppet
 		defer func() {
+			if pup != nil {
+				pup.Close()
+			}
 			if env != nil {
 				env.Close()
 			}
+			time.Sleep(time.Minute)
 		}()
+		// a third of the cases run with an alive peer and no gossip rounds: serf then applies an
+		// edit but reports "timeout waiting for update broadcast" - the edit is in effect although
+		// the reply carries an error
+		withPeer := rng.Intn(3) == 0
 		seq := uint64(10)
 		start := func() bool {
 			var err error
@@ -219,6 +232,21 @@ func c30Case(t *testing.T, rng *rand.Rand, dir string) (res c30Result) {
 				return false
 			}
 			synctest.Wait()
+			if withPeer {
+				if pup != nil {
+					pup.Close()
+				}
+				pup, err = cluster.StartPuppet(env.Net, cluster.PuppetOpts{Name: "peer", IP: "10.30.0.9", Profile: "passive"})
+				if err == nil {
+					_, err = env.Agent.Join([]string{pup.Addr}, false)
+				}
+				if err != nil {
+					res.err = "peer: " + err.Error()
+					return false
+				}
+				synctest.Wait()
+				res.withPeer = true
+			}
 			cl, err = env.Dial()
 			if err == nil {
 				err = ipcHandshake(cl, "", synctest.Wait)
@@ -257,6 +285,10 @@ func c30Case(t *testing.T, rng *rand.Rand, dir string) (res c30Result) {
 			seq++
 			cl.Send("tags", seq, &ipcTagsReq{Tags: e.Set, DeleteTags: e.Del})
 			synctest.Wait()
+			if withPeer {
+				time.Sleep(6 * time.Second) // past the broadcast timeout
+				synctest.Wait()
+			}
 			vals := cl.Take()
 			if len(vals) != 1 || !vals[0].Hdr || vals[0].Seq != seq {
 				res.err = fmt.Sprintf("edit %d: unexpected reply %v", i, vals)
@@ -264,7 +296,9 @@ func c30Case(t *testing.T, rng *rand.Rand, dir string) (res c30Result) {
 			}
 			rejected := vals[0].Err != ""
 			res.hist = append(res.hist, fmt.Sprintf("edit %s -> encoded %d bytes, reply error %q", e, encLen, vals[0].Err))
-			if rejected != (encLen > 512) {
+			if rejected && encLen <= 512 && withPeer && strings.Contains(vals[0].Err, "timeout") {
+				res.timeoutEdits++
+			} else if rejected != (encLen > 512) {
 				res.predMismatch++
 			}
 			eff = ipcCopyTags(env.Agent.Serf().LocalMember().Tags)
@@ -363,6 +397,10 @@ func TestC30(t *testing.T) {
 		r.Count("file_reloads_through_agent_loader", res.reloads)
 		r.Count("agent_restarts_on_same_file", res.restarts)
 		r.Count("size_prediction_mismatches", res.predMismatch)
+		r.Count("edits_in_effect_although_the_reply_reported_a_broadcast_timeout", res.timeoutEdits)
+		if res.withPeer {
+			r.Count("cases_with_alive_peer_and_no_gossip", 1)
+		}
 		r.Max("max_encoded_tags_bytes", int64(res.maxEnc))
 		if res.rejectedThenEdit {
 			r.Count("cases_with_edit_after_rejected_edit", 1)
